@@ -108,3 +108,46 @@ pub proof fn lemma_seq_concat(d: &ChainDB, lo: int, mid: int, hi: int, rest: Seq
     ensures main_seq(d, lo, mid) + main_seq(d, mid + 1, hi) =~= main_seq(d, lo, hi),
         anc_seq(d, lo, mid) + (anc_seq(d, mid + 1, hi) + rest) =~= anc_seq(d, lo, hi) + rest,
 {}
+
+// exts of the new tip's ancestors, in increasing height
+pub open spec fn anc_ext(d: &ChainDB, k: int) -> BlockExt { ext_of(d, anc(k))->Some_0 }
+pub open spec fn ext_seq(d: &ChainDB, lo: int, hi: int) -> Seq<BlockExt> { Seq::new((if hi >= lo { hi - lo + 1 } else { 0 }) as nat, |i: int| anc_ext(d, lo + i)) }
+// "every ancestor in [lo, hi] is still unverified"
+pub open spec fn all_unverified(d: &ChainDB, lo: int, hi: int) -> bool { forall|k: int| lo <= k <= hi ==> (#[trigger] anc_ext(d, k)).verified is None }
+pub proof fn lemma_ext_seq_push_front(d: &ChainDB, lo: int, hi: int, rest: Seq<BlockExt>)
+    requires hi >= lo
+    ensures seq![anc_ext(d, lo)] + (ext_seq(d, lo + 1, hi) + rest) =~= ext_seq(d, lo, hi) + rest
+{}
+pub proof fn lemma_ext_seq_empty(d: &ChainDB, lo: int, rest: Seq<BlockExt>)
+    ensures ext_seq(d, lo, lo - 1) + rest =~= rest
+{}
+// what the walk down from the new tip has collected so far: while `unseen`, the exts of every ancestor above the cursor
+// (all of them unverified); once a verified ancestor has been met at height v, exactly the exts above v
+pub open spec fn dirty_ok(d: &ChainDB, unseen: bool, cursor: int, top: int, dirty: Seq<BlockExt>, rest: Seq<BlockExt>) -> bool {
+    if unseen { dirty == ext_seq(d, cursor + 1, top) + rest && all_unverified(d, cursor + 1, top) }
+    else { exists|v: int| cursor < v <= top && #[trigger] anc_ext(d, v).verified is Some && all_unverified(d, v + 1, top) && dirty == ext_seq(d, v + 1, top) + rest }
+}
+pub proof fn lemma_ext_seq_concat(d: &ChainDB, lo: int, mid: int, hi: int, rest: Seq<BlockExt>)
+    requires lo <= mid + 1, mid <= hi
+    ensures ext_seq(d, lo, mid) + (ext_seq(d, mid + 1, hi) + rest) =~= ext_seq(d, lo, hi) + rest
+{}
+// two consecutive walks compose into one
+pub proof fn lemma_dirty_compose(d: &ChainDB, u1: bool, u2: bool, c: int, m: int, top: int, d1: Seq<BlockExt>, d2: Seq<BlockExt>, rest: Seq<BlockExt>)
+    requires c <= m <= top, dirty_ok(d, u1, m, top, d1, rest),
+        u1 ==> dirty_ok(d, u2, c, m, d2, d1), !u1 ==> (!u2 && d2 == d1),
+    ensures dirty_ok(d, u2, c, top, d2, rest)
+{
+    if u1 {
+        if u2 {
+            lemma_ext_seq_concat(d, c + 1, m, top, rest);
+        } else {
+            let v = choose|v: int| c < v <= m && #[trigger] anc_ext(d, v).verified is Some && all_unverified(d, v + 1, m) && d2 == ext_seq(d, v + 1, m) + d1;
+            lemma_ext_seq_concat(d, v + 1, m, top, rest);
+            assert(all_unverified(d, v + 1, top));
+            assert(d2 =~= ext_seq(d, v + 1, top) + rest);
+        }
+    } else {
+        let v = choose|v: int| m < v <= top && #[trigger] anc_ext(d, v).verified is Some && all_unverified(d, v + 1, top) && d1 == ext_seq(d, v + 1, top) + rest;
+        assert(c < v);
+    }
+}
